@@ -226,7 +226,7 @@ def confirm_events(ctx, kind, cands):
     small, owner = [], []
     if spec.get("shrink"):
         for k, (ev, _) in enumerate(events):
-            for s in spec["shrink"](ev):
+            for s in spec["shrink"](ev, bad[k]):
                 small.append(s)
                 owner.append(k)
     explained = set()
@@ -258,7 +258,7 @@ def confirm_all(ctx, cands):
 
 # ---------------------------------------------------------------------- authz events
 
-def shrink_authz(ev):
+def shrink_authz(ev, entry=None):
     pols = ev.get("policies") or []
     if len(pols) <= 1:
         return []
@@ -429,6 +429,71 @@ def run_C04(ctx):
            min_cases=500, timeout=7200, workers=1)
     attach_env_table(ctx, "universe", "fold")
     add_m3(ctx, "fold", "random", "fold", 2000 if q else 60000)
+    return vlib.finish(ctx, confirm_all)
+
+
+def store_table(ctx, name):
+    with open(os.path.join(ctx.work, name + ".gen", "cases.ndjson")) as f:
+        for line in f:
+            if '"op":"storetable"' in line:
+                t = json.loads(line)
+                return {"pols": t["pols"], "probes": t["probes"]}
+    raise Broken("%s: no storetable line emitted" % name)
+
+
+def shrink_store(ev, entry=None):
+    k = (entry or {}).get("step")
+    if k and k < len(ev["steps"]):
+        return [dict(ev, steps=ev["steps"][:k])]
+    return []
+
+
+def describe_store(ev, obs, entry):
+    k = entry.get("step", 0)
+    steps = ev.get("steps") or []
+    st = steps[k - 1] if 0 < k <= len(steps) else {}
+    hist = " ".join("%s(%s)" % (s["op"], ",".join(str(s[a]) for a in ("h", "h2", "id", "pol", "doc", "file") if a in s))
+                    for s in steps[max(0, k - 6):k])
+    got = ""
+    if isinstance(obs, dict) and "rets" in obs and 0 < k <= len(obs["rets"]):
+        got = " returned %s, state %s" % (json.dumps(obs["rets"][k - 1]), json.dumps(obs["projs"][k - 1])[:300])
+    return "store history (%d steps) ... %s => step %d %s is not explained by the map model:%s" % (len(steps), hist, k, st.get("op"), got)
+
+
+KINDS["store"] = dict(module="Trace_Store", shrink=shrink_store, describe=describe_store)
+vlib.TRACE_CFG["Trace_Store"] = ("INIT TraceInit\nNEXT TraceNext\nINVARIANT WriteOut\nCHECK_DEADLOCK FALSE\n"
+                                 "CONSTANT FullSecond = TRUE\n")
+
+
+@prop("C20")
+def run_C20(ctx):
+    ctx.rule = ("M1: the state graph of spec/PolicyStore.tla (two PolicySet handles, one PolicyMap copy, four semantically "
+                "distinct policies, documents of 0/1/3/12 policies; history hidden by a VIEW, bounded by OneAux/SmallBig) with "
+                "invariants ContentsDecide, AbsentIrrelevant and the isolation action properties. M2: every history of <= MaxLen "
+                "operations is emitted with the predicted return value and projection and replayed on real PolicySet/PolicyMap "
+                "objects; long simulated behaviours (tlc -simulate) are replayed with a comparison after every step. "
+                "M3: random histories of 50-500 operations over 10 ids recorded from the real objects are validated by TLC "
+                "against the unchanged PolicyStore actions (Trace_Store). distinct = distinct histories.")
+    ctx.assumptions = ["a policy in a container is recognised by its @pid annotation",
+                       "authorization of the four table policies is specified by CedarPolicy/Authz (C01, C02)"]
+    q = ctx.quick
+    graph = ("INIT Init\nNEXT Next\nVIEW View\nINVARIANT TypeOK\nINVARIANT ContentsDecide\nINVARIANT AbsentIrrelevant\n"
+             "PROPERTY Isolation\nPROPERTY CopyIsolation\nCONSTRAINT OneAux\nCONSTRAINT SmallBig\nCHECK_DEADLOCK FALSE\n"
+             "CONSTANT FullSecond = FALSE\nCONSTANT MaxLen = 3\n")
+    vlib.tlc_check(ctx, "m1.graph", "MC_PolicyStore", graph, ["mc/MC_PolicyStore.tla"], workers=8)
+    hist = ("INIT Init\nNEXT Next\nINVARIANT EmitHist\nCONSTRAINT Bounded\nCHECK_DEADLOCK FALSE\n"
+            "CONSTANT FullSecond = FALSE\nCONSTANT MaxLen = %d\n" % (3 if q else 4))
+    add_m2(ctx, "store", "histories", "MC_PolicyStore", ["mc/MC_PolicyStore.tla"], cfg=hist, min_cases=1000, timeout=7200)
+    table = store_table(ctx, "histories")
+    depth = 15 if q else 40
+    sim = ("INIT Init\nNEXT Next\nINVARIANT EmitSim\nCHECK_DEADLOCK FALSE\nCONSTANT FullSecond = TRUE\nCONSTANT MaxLen = %d\n" % depth)
+    add_m2(ctx, "store", "simulated", "MC_PolicyStore", ["mc/MC_PolicyStore.tla"], cfg=sim, min_cases=100, timeout=7200,
+           args=["-simulate", "num=%d" % (300 if q else 5000), "-depth", str(depth + 1), "-seed", str(ctx.seed)])
+    for c in ctx.candidates:
+        if c["kind"] == "store" and "table" not in c["event"]:
+            c["event"] = dict(c["event"], table=table)
+    tfile = os.path.join(ctx.work, "histories.gen", "cases.ndjson")
+    add_m3(ctx, "store", "random", "store", 60 if q else 1500, params={"table": tfile}, shards=(2 if q else 6))
     return vlib.finish(ctx, confirm_all)
 
 
